@@ -19,4 +19,22 @@ Section Spec.
   (* the cached normalisation is the one of the current profile *)
   Definition tinv (ivs : list (T * T)) (st : tstate) : Prop :=
     snd st = S_of N ivs (fst st).
+
+  (* what an object returns, as a function of the CURRENT live time and
+     profile only (no cached normalisation in sight) *)
+  Definition spec_step (tol : T) (c : list (T * T) * @profile T) (op : top)
+    : (list (T * T) * @profile T) * list (list T) :=
+    let (ivs, p) := c in
+    match op with
+    | SetProfile p' | ExtProfile p' => ((ivs, p'), [])
+    | SetLivetime ivs' | ExtLivetime ivs' => ((ivs', p), [])
+    | EvalSig rows times => ((ivs, rows_profile N tol p (firstn (length times) rows)), calc_spec ivs tol p rows times)
+    | EvalBkg times => ((ivs, p), [map (bkg_time_pd N ivs p) times])
+    end.
+
+  Fixpoint spec_run (tol : T) (c : list (T * T) * @profile T) (ops : list top) : list (list (list T)) :=
+    match ops with
+    | [] => []
+    | op :: r => let (c', out) := spec_step tol c op in out :: spec_run tol c' r
+    end.
 End Spec.
